@@ -454,7 +454,14 @@ def r16_14(ctx: Ctx, rule: str = "R16.14") -> None:
                 isinstance(k, ast.Constant) and k.value == "" for cmp_ in x.comparators for k in ast.walk(cmp_)) for x in ast.walk(t.ast))
             kinds = any(isinstance(x, ast.Call) and attr_tail(x) == "is_dir" for x in ast.walk(t.ast))
             raises = any(e.kind == "true" and q.branch_always_raises(cfg, e) for e in t.succ)
-            ok = ok or (empties and kinds and raises)
+            # a link that is archived BY ITS TARGET (dereference) is the directory it leads to: the link test counts only without dereference
+            bare_link = any(isinstance(a, ast.Call) and attr_tail(a) == "is_symlink" and pol for a, pol in q.atoms(t.ast, True)) or any(
+                isinstance(x, ast.BoolOp) and isinstance(x.op, ast.Or) and any(isinstance(v, ast.Call) and attr_tail(v) == "is_symlink" for v in x.values) for x in ast.walk(t.ast))
+            ok = ok or (empties and kinds and raises and not bare_link)
+            if empties and kinds and raises and bare_link:
+                ctx.fail(rule, f, t.ast, f"`{norm(t.ast)[:110]}` refuses every symbolic link under the empty name, also with dereference=True, where the link IS the directory it "
+                         "leads to: `SevenZipFile(..., dereference=True).writeall(<link to a directory>, arcname='')`, which stored the tree at the root of the archive, raises ValueError",
+                         construct="empty name refused for a dereferenced link")
         ctx.check(ok, rule, f, c, "an empty sanitised name is accepted for a directory only",
                   "write() builds the member's record without refusing an EMPTY sanitised name for a file or link: a file called 'C:' (or a link at '/') in a tree archived with "
                   "writeall('.') is stored as the file member '.', and extractall() of that archive dies with IsADirectoryError", construct="file stored under the empty name")
